@@ -118,6 +118,27 @@ pub fn generate(tier: Tier, rng: &mut Rng) -> Vec<Case> {
     ] {
         push(src.to_string(), "catalogue");
     }
+    // characters that are white space for Unicode but not for CEL (only TAB, LF, FF, CR, SPACE
+    // are), in every position of an otherwise valid text: each must be a token recognition error
+    for ws in ["\u{a0}", "\u{b}", "\u{85}", "\u{1680}", "\u{2000}", "\u{2003}", "\u{200a}", "\u{2028}", "\u{2029}", "\u{202f}", "\u{205f}", "\u{3000}", "\u{feff}", "\u{200b}", "\u{1c}", "\u{1f}"] {
+        for src in [format!("1{ws}"), format!("{ws}1"), format!("1 {ws}"), format!("{ws} 1"), format!("x + 1 {ws}\n"), format!("1{ws}+{ws}2"), format!("1 +{ws}"), format!("[1,{ws}2]"), format!("f(1){ws}{ws}"), format!("'a'{ws}")] {
+            push(src, "unicode-space");
+        }
+    }
+    // invalid escapes (lone surrogates, values beyond U+10FFFF, bad hex) at every depth of a
+    // multi-line literal: the error's line / column must stay inside the source
+    for bad in ["\\ud800", "\\udfff", "\\U00110000", "\\U0000d800", "\\xZZ", "\\q", "\\400"] {
+        for q in ["'''", "\"\"\""] {
+            for lines_before in 0..4usize {
+                for pad in ["", "abcdefgh ", "éééééééé ", "\u{1F431}\u{1F431} "] {
+                    let body = format!("{}{pad}{bad}", "line\n".repeat(lines_before));
+                    push(format!("{q}{body}{q}"), "bad-escape-multiline");
+                    push(format!("x + {q}{body}{q}"), "bad-escape-multiline");
+                    push(format!("[1,\n {q}{body}\ntail{q}]"), "bad-escape-multiline");
+                }
+            }
+        }
+    }
     // macros with every number of arguments in both call styles (the expanders see them all;
     // a wrong count must be a positioned error or an ordinary call, never a panic)
     for name in ["has", "all", "exists", "exists_one", "existsOne", "map", "filter"] {
